@@ -3,6 +3,7 @@ package props
 import (
 	"encoding/json"
 	"fmt"
+	"math"
 	"strings"
 
 	v21cf "github.com/jf-tech/omniparser/extensions/omniv21/customfuncs"
@@ -131,7 +132,98 @@ func c20ByName() map[string]jsCall {
 	for _, c := range c20Alphabet() {
 		m[c.Name] = c
 	}
+	for _, c := range c20ValueTable() {
+		m[c.Name] = c
+	}
 	return m
+}
+
+// c20ValueTable is the value-mapping table of the property: JavaScript numbers, strings, booleans,
+// arrays and objects map to the corresponding JSON values; NaN, +/-Infinity, null, undefined and
+// thrown exceptions are errors - however the value came about. Want "" = the mapping is not fixed by
+// the property (holes, functions, Date ...): only 'pooled call = isolated call' is checked.
+func c20ValueTable() []jsCall {
+	type e struct {
+		js   string
+		want interface{}
+		args []interface{}
+	}
+	type errT struct{}
+	type obs struct{}
+	E, O := errT{}, obs{}
+	A := func(v ...interface{}) []interface{} {
+		if v == nil {
+			return []interface{}{}
+		}
+		return v
+	}
+	M := func(kv ...interface{}) map[string]interface{} {
+		m := map[string]interface{}{}
+		for i := 0; i+1 < len(kv); i += 2 {
+			m[kv[i].(string)] = kv[i+1]
+		}
+		return m
+	}
+	tab := []e{
+		// numbers
+		{"0", 0, nil}, {"-0", math.Copysign(0, -1), nil}, {"1", 1, nil}, {"-1", -1, nil}, {"1.5", 1.5, nil}, {"-2.25", -2.25, nil},
+		{"1e21", 1e21, nil}, {"1e-7", 1e-7, nil}, {"Math.pow(2,53)", 9007199254740992.0, nil}, {"Math.pow(2,53)+2", 9007199254740994.0, nil},
+		{"Number.MAX_VALUE", math.MaxFloat64, nil}, {"Number.MIN_VALUE", 5e-324, nil}, {"-Number.MAX_VALUE", -math.MaxFloat64, nil},
+		{"0.1+0.2", 0.30000000000000004, nil}, {"1/3", 1.0 / 3, nil}, {"0x10", 16, nil}, {"2147483648", 2147483648, nil}, {"-2147483649", -2147483649, nil},
+		{"4294967296*4", 17179869184, nil}, {"7%3", 1, nil}, {"5/2", 2.5, nil}, {"4/2", 2, nil}, {"Math.floor(2.7)", 2, nil}, {"Number('12')", 12, nil}, {"+true", 1, nil},
+		{"a*2", 42, A("a", int64(21))}, {"a*2", 3.0, A("a", 1.5)}, {"a/b", 0.5, A("a", int64(1), "b", int64(2))},
+		// non-finite numbers, however produced
+		{"1/0", E, nil}, {"-1/0", E, nil}, {"Infinity", E, nil}, {"-Infinity", E, nil}, {"Number.POSITIVE_INFINITY", E, nil}, {"Number.NEGATIVE_INFINITY", E, nil},
+		{"Math.log(0)", E, nil}, {"-Math.log(0)", E, nil}, {"Number.MAX_VALUE*2", E, nil}, {"-Number.MAX_VALUE*2", E, nil}, {"Math.pow(10,400)", E, nil}, {"-Math.pow(10,400)", E, nil},
+		{"a/b", E, A("a", int64(-1), "b", int64(0))}, {"a/b", E, A("a", int64(1), "b", int64(0))}, {"a/b", E, A("a", int64(0), "b", int64(0))}, {"a/b", E, A("a", -1.5, "b", 0.0)},
+		{"NaN", E, nil}, {"0/0", E, nil}, {"Math.sqrt(-1)", E, nil}, {"parseInt('x')", E, nil}, {"Number('abc')", E, nil}, {"Infinity-Infinity", E, nil}, {"-NaN", E, nil}, {"a*1", E, A("a", "x")},
+		// null / undefined, however produced
+		{"null", E, nil}, {"undefined", E, nil}, {"void 0", E, nil}, {"(function(){})()", E, nil}, {"[][0]", E, nil}, {"({}).x", E, nil}, {"a", E, A("b", int64(1), "a", nil)},
+		{"JSON.parse('null')", E, nil}, {"'abc'.match(/x/)", E, nil}, {"[1].find(function(v){return v>1})", E, nil},
+		// thrown
+		{"throw 1", E, nil}, {"throw new Error('x')", E, nil}, {"throw null", E, nil}, {"(function(){throw 'x'})()", E, nil}, {"notDefinedAnywhere", E, nil}, {"null.x", E, nil},
+		{"JSON.parse('{')", E, nil}, {"undefined()", E, nil},
+		// strings
+		{"''", "", nil}, {"'a'", "a", nil}, {"'\u00e9'", "\u00e9", nil}, {"'\u2028'", "\u2028", nil}, {"'\\ud83d\\ude00'", "\U0001F600", nil}, {"'1'", "1", nil}, {"'true'", "true", nil},
+		{"'null'", "null", nil}, {"'NaN'", "NaN", nil}, {"'Infinity'", "Infinity", nil}, {"'undefined'", "undefined", nil}, {"String(1)", "1", nil}, {"'a'+1", "a1", nil}, {"1+'1'", "11", nil},
+		{"'\\\\'", "\\", nil}, {"'\"'", "\"", nil}, {"'\\n'", "\n", nil}, {"'\\u0000'", "\x00", nil}, {"'<&>'", "<&>", nil}, {"' a '", " a ", nil}, {"typeof null", "object", nil},
+		{"a+a", "xx", A("a", "x")}, {"a+1", "11", A("a", "1")}, {"a.length", 2, A("a", "\u00e9\u00e9")}, {"String(null)", "null", nil}, {"String(void 0)", "undefined", nil}, {"String(0/0)", "NaN", nil},
+		// booleans
+		{"true", true, nil}, {"false", false, nil}, {"!0", true, nil}, {"1<2", true, nil}, {"a", true, A("a", true)}, {"!a", true, A("a", false)}, {"a===1", true, A("a", int64(1))},
+		{"a===1.5", true, A("a", 1.5)}, {"a==='1'", true, A("a", "1")}, {"isNaN(0/0)", true, nil}, {"isFinite(1/0)", false, nil}, {"null===null", true, nil},
+		// arrays
+		{"[]", A(), nil}, {"[1]", A(1), nil}, {"[[]]", A(A()), nil}, {"[1,[2,[3]]]", A(1, A(2, A(3))), nil}, {"['a',true,1.5]", A("a", true, 1.5), nil}, {"[{}]", A(M()), nil},
+		{"[null]", A(nil), nil}, {"[1,null,'a']", A(1, nil, "a"), nil}, {"'a,b'.split(',')", A("a", "b"), nil}, {"[1,2,3].map(function(v){return v*2})", A(2, 4, 6), nil},
+		{"[a,a]", A("x", "x"), A("a", "x")}, {"JSON.parse('[1,{\"k\":[]}]')", A(1, M("k", A())), nil}, {"[[1,2],[3,4]]", A(A(1, 2), A(3, 4)), nil},
+		{"[undefined]", O, nil}, {"[0/0]", O, nil}, {"[1/0]", O, nil}, {"new Array(2)", O, nil}, {"[,1]", O, nil},
+		// objects
+		{"({})", M(), nil}, {"({a:1})", M("a", 1), nil}, {"({a:{b:[1,{c:'x'}]}})", M("a", M("b", A(1, M("c", "x")))), nil}, {"({'':1})", M("", 1), nil}, {"({'a b':1})", M("a b", 1), nil},
+		{"({1:2})", M("1", 2), nil}, {"({a:null})", M("a", nil), nil}, {"({a:'1',b:true,c:1.5})", M("a", "1", "b", true, "c", 1.5), nil}, {"JSON.parse('{\"x\":{\"y\":null}}')", M("x", M("y", nil)), nil},
+		{"({k:a})", M("k", "v"), A("a", "v")}, {"({b:1,a:2})", M("a", 2, "b", 1), nil}, {"Object.create(null)", O, nil},
+		{"({a:undefined})", O, nil}, {"({a:0/0})", O, nil}, {"new Date(0)", O, nil}, {"(function(){})", O, nil}, {"new String('a')", O, nil}, {"new Number(1)", O, nil}, {"/x/", O, nil},
+		// arguments keep their declared kind
+		{"typeof a", "string", A("a", "1")}, {"typeof a", "number", A("a", int64(1))}, {"typeof a", "number", A("a", 1.5)}, {"typeof a", "boolean", A("a", true)},
+		{"a", "1", A("a", "1")}, {"a", 1, A("a", int64(1))}, {"a", 1.5, A("a", 1.5)}, {"a", false, A("a", false)}, {"a", "", A("a", "")}, {"a", 0, A("a", int64(0))}, {"a", -7, A("a", int64(-7))},
+		{"a", O, A("a", int64(1)<<62)}, {"a+1", O, A("a", int64(9007199254740992))},
+	}
+	var out []jsCall
+	for i, t := range tab {
+		c := jsCall{Name: fmt.Sprintf("v%03d:%s", i, t.js), JS: t.js, Args: t.args}
+		switch t.want.(type) {
+		case errT:
+			c.Want = "ERROR"
+		case obs:
+			c.Want = ""
+		default:
+			b, err := json.Marshal(t.want)
+			if err != nil {
+				panic(err)
+			}
+			c.Want = string(b)
+		}
+		out = append(out, c)
+	}
+	return out
 }
 
 func c20RunHistory(names []string, x *core.Exec) (sig, detail string, outcomes []string) {
@@ -165,6 +257,14 @@ func c20RunHistory(names []string, x *core.Exec) (sig, detail string, outcomes [
 			want = ref
 		}
 		if ref != want {
+			if strings.HasPrefix(n, "v") && strings.Contains(n, ":") {
+				// value table = the property's mapping rule: the isolated call itself is wrong
+				kind := "wrong-value-mapping"
+				if want == "ERROR" {
+					kind = "error-value-let-through"
+				}
+				return kind, fmt.Sprintf("call %q args %v on a fresh VM returned %s, the property's mapping says %s", c.JS, c.Args, ref, want), outcomes
+			}
 			return "harness:expectation-table", fmt.Sprintf("call %s: table says %s, isolated call gives %s", n, want, ref), outcomes
 		}
 		if got != want {
@@ -234,7 +334,7 @@ func init() {
 	core.Register(&core.Prop{
 		ID:    "C20",
 		Level: "model_checking",
-		Rule:  "E1: every history of up to 3 (thorough 4) calls over a 29-symbol alphabet (arguments of every kind, argument named like a built-in, all result kinds, NaN/Infinity/null/undefined/throw/syntax error/odd argument count, IIFE locals, javascript_with_context on the record node, on an ancestor whose children change, and after the record node was released and re-acquired) x every VM-pool answer (reuse/fresh) at every Get; every call's result must equal the same call made in isolation on a fresh VM with all caches disabled, and the expected value of a table (states = distinct (history prefix) outcome vectors, transitions = calls). E2: two threads x two calls from the alphabet under the cooperative scheduler (yield at every VM-pool / cache operation), all schedules with <= 2 preemptions; plus a free-running -race pass",
+		Rule:  "E0: a value-mapping table of 190 scripts (numbers incl. -0 / 2^53 / MAX_VALUE, every way to produce NaN, +Infinity and -Infinity, null, undefined, thrown values; strings; booleans; nested arrays / objects; typed arguments), each alone and inside 4 call histories on pooled VMs, against the JSON value the property prescribes (or, where it prescribes none, against the isolated call); E1: every history of up to 3 (thorough 4) calls over a 29-symbol alphabet (arguments of every kind, argument named like a built-in, all result kinds, NaN/Infinity/null/undefined/throw/syntax error/odd argument count, IIFE locals, javascript_with_context on the record node, on an ancestor whose children change, and after the record node was released and re-acquired) x every VM-pool answer (reuse/fresh) at every Get; every call's result must equal the same call made in isolation on a fresh VM with all caches disabled, and the expected value of a table (states = distinct (history prefix) outcome vectors, transitions = calls). E2: two threads x two calls from the alphabet under the cooperative scheduler (yield at every VM-pool / cache operation), all schedules with <= 2 preemptions; plus a free-running -race pass",
 		Assumptions: []string{
 			"scripts that assign globals themselves are excluded by the property; top-level scripts of the alphabet are pure expressions or IIFEs",
 			"the isolated reference call uses the library's own 'caching disabled' path (fresh goja VM, no program / node-JSON cache)",
@@ -284,6 +384,37 @@ func init() {
 				})
 				return idx%64 != 0 || !c.TimeUp()
 			})
+			// E0: the value-mapping table, each entry alone and after / before other calls on pooled VMs
+			for _, e := range c20ValueTable() {
+				for _, names := range [][]string{{e.Name}, {"a+1", e.Name}, {e.Name, e.Name}, {"throw-with-arg", e.Name, "typeof-a-unset"}, {"arg-named-JSON", e.Name, "JSON.stringify"}} {
+					idx++
+					if !c.Mine(idx) {
+						continue
+					}
+					names := names
+					var sig, detail string
+					var outs []string
+					core.Explore(len(names), 0, 1, 0, func(x *core.Exec) {
+						c.Begin(func() interface{} { return c20Case{History: names, Pool: x.Choices()} })
+						sig, detail, outs = c20RunHistory(names, x)
+					}, func(x *core.Exec) bool {
+						c.Eval("E0|" + strings.Join(outs, "|"))
+						c.Count("transitions", int64(len(names)))
+						c.Count("traces_validated_against_impl", 1)
+						c.Count("value_table_histories", 1)
+						if strings.HasPrefix(sig, "harness:") {
+							c.HarnessError(sig + ": " + detail)
+						} else if sig != "" {
+							cs := c20Case{History: names, Pool: x.Choices()}
+							c.Violation(sig, detail, cs, func() string {
+								s, _, _ := c20RunHistory(cs.History, &core.Exec{Prefix: cs.Pool})
+								return s
+							})
+						}
+						return true
+					})
+				}
+			}
 			// E2
 			pairs := [][][]string{
 				{{"a+1", "typeof-a-unset"}, {"typeof-a-string", "typeof-secret"}},
